@@ -802,6 +802,48 @@ func extractC17Entry(c *Ctx, kf, bf *ast.File) error {
 	}
 	c.P("Definition legacy_execute_args : list string := %s.", CoqStrList(c17CallArgs(c, lc[0])[1:]))
 	c.P("Definition legacy_message_fields : list string := %s.", CoqStrList(c17StructFields(lf, "executeJobWasmEvent")))
+	// unmarshallJob: the payload bytes are hex-encoded and wrapped UNCONDITIONALLY -- straight-line code; any branch
+	// (if / switch / loop / function literal) in it is an unknown shape
+	uj := FindFunc(lf, "", "unmarshallJob")
+	if uj == nil {
+		return fmt.Errorf("legacy unmarshallJob not found")
+	}
+	var ujs []string
+	for _, st := range uj.Body.List {
+		switch st.(type) {
+		case *ast.AssignStmt, *ast.DeclStmt, *ast.ReturnStmt:
+		default:
+			return fmt.Errorf("legacy unmarshallJob: statement %q is not straight-line (the wrapping of the payload must not depend on its content)", squash(c.Src(st)))
+		}
+		branch := false
+		ast.Inspect(st, func(n ast.Node) bool {
+			switch n.(type) {
+			case *ast.FuncLit, *ast.IfStmt, *ast.SwitchStmt, *ast.TypeSwitchStmt, *ast.ForStmt, *ast.RangeStmt:
+				branch = true
+			}
+			return true
+		})
+		if branch {
+			return fmt.Errorf("legacy unmarshallJob: branch inside %q", squash(c.Src(st)))
+		}
+		ujs = append(ujs, squash(c.Src(st)))
+	}
+	c.P("Definition legacy_unmarshal_stmts : list string := %s.", CoqStrList(ujs))
+	// the new messenger: the statements of executeJob that mention the payload
+	var bps []string
+	for _, st := range be.Body.List {
+		txt := squash(c.Src(st))
+		if is, ok := st.(*ast.IfStmt); ok {
+			if strings.Contains(c.Src(is.Cond), "Payload") {
+				bps = append(bps, "if "+squash(c.Src(is.Cond)))
+			}
+			continue
+		}
+		if strings.Contains(txt, "Payload") || strings.Contains(txt, "hexString") {
+			bps = append(bps, txt)
+		}
+	}
+	c.P("Definition binding_payload_stmts : list string := %s.", CoqStrList(bps))
 	rf, err := c.Parse("util/libwasm/plugin.go")
 	if err != nil {
 		return err
